@@ -30,6 +30,12 @@ CHECKS = {
  "C11": ("enumeration of (digest, r, s) triples x all recovery ids 0..255 (valid / overflowing second candidates, non-x-coordinates, constructed sR = eG, reference-signed) against SEC 1 4.1.6 with explicit id; every returned key re-verified",
          "Bounded exhaustive exploration of RecoverPublicKey: for each triple all 256 ids are tried; error-vs-key and the key itself must equal the reference Q = r^-1(sR - eG); every returned key must verify (r,s) under the reference and under VerifyRaw / recoverable Verify; Q = infinity and ids > 3 must fail.",
          "Trusted: /verif/ref.", "DESIGN.md §6 C11"),
+ "C09": ("exhaustive enumeration of all candidate streams to the rejection sampler (131k streams up to the retry limit), RFC 6979 generator read counts 1..8, and hedged-nonce signing under every reader delivery mode and every fault position 0..32, with pairwise r-collision analysis",
+         "Three small state machines explored completely within their bounds: (a) the sampler on every stream 'j rejects then accept' (j=0..7) and every all-reject stream over a 7-value candidate alphabet, result = exactly the first in-range candidate, bytes consumed = 32 x candidates examined, plus delivery/fault scripts; (b) the RFC 6979 generator for 1..8 reads per (key, digest) and end-to-end deterministic signatures, byte-exact; (c) the hedged nonce via SignRaw: determinism, exactly 32 entropy bytes, 36 delivery modes equivalent, error+nil for a fault after every j<32, and over all pairs of triples r collides iff (key, entropy, e) coincide.",
+         "Trusted: /verif/ref RFC 6979 (20 published vectors). The hedged construction is not pinned by the property; injectivity is decided on the enumerated triples only.", "DESIGN.md §6 C09"),
+ "C10": ("enumeration of all ordered key pairs over a scalar alphabet x 6 import formats (ECDH both directions vs x((ab)G)); every private-key candidate length/boundary; SEC 1 public-key corpus incl. other-curve points in all formats; accessor/cached-encoding consistency; caller-mutation history steps",
+         "Bounded exhaustive exploration of the key API: 18^2 ordered pairs, both directions, keys imported as uncompressed / compressed / SPKI / projective points; NewPrivateKey on every length 0..34 and {0,1,n-1,n,n+1,2^256-1}; NewPublicKey / ParseASN1PublicKey / NewPublicKeyFromPoint accept iff the reference says valid non-identity point (twist and other-curve points included); every accessor and the hidden point/bytes (field-access hook) equal the reference encodings; after the caller mutates every returned value, wipes import buffers and derives Schnorr keys, all observations are unchanged.",
+         "Trusted: /verif/ref.", "DESIGN.md §6 C10"),
 }
 
 PENDING_REASON = "check under construction in this round; not yet claimed (see DESIGN.md §6 for the planned bounded-exhaustive check)"
